@@ -147,6 +147,8 @@ def check(rng, deep):
                     col = J[o][i][:, s]
                     scale = max(np.abs(fd[o]).max(), np.abs(col).max(), 1e-3)
                     tol = (2e-3 if has_opts else 6e-3) * scale      # kinks (borrowing constraint, interpolation) limit the agreement of the two difference schemes
+                    if name == 'multi_stage':
+                        tol = 1.5e-3 * scale      # measured on the unchanged tree: <= 8e-4 for r, <= 1.5e-4 for the Markov shifters (whose contemporaneous columns are exact: the response is linear in the shifter)
                     if np.abs(col - fd[o]).max() > tol:
                         C.push(out, dict(what='Jacobian column differs from the derivative of the block\'s own nonlinear impulse response', input=dict(kind='jac', block=name, i=i, o=o, s=s),
                                          observed=float(np.abs(col - fd[o]).max() / scale), signature=dict(op='jac-vs-nonlinear', block=name, input=i, anticipation=s > 0)))
